@@ -504,7 +504,7 @@ def c35(tier, seed, replay):
                    "(alone, and per call under an N-thread stress run); Locks.tla runs K threads over every multiset of programs and every "
                    "interleaving with std Mutex / writer-preferring RwLock semantics and TLC's deadlock check; the stress run itself is "
                    "watched for 10 s without progress",
-           "model_runs": runs, "stress": saved["stats"]["universes"], "programs": saved["programs"],
+           "model_runs": runs, "stress": saved["stats"]["universes"], "lock_programs": saved["programs"],
            "binding_selftest": saved.get("selftest"), "known_findings_seen": nk}
     vlib.write_evidence("C35", tier, seed, "model_checking", cov, time.time() - t0, nv,
                         ASSUME_COMMON + ["lock sequences not produced by the driver's operations (14 engine-level, 17 Db/Cypher-level, alone and under contention) are not in the model",
